@@ -184,6 +184,7 @@ fn enigma_ok(m: &MMappings) -> Result<(), &'static str> {
 			for p in &me.params {
 				if p.names.len() != 2 { return Err("names row"); }
 				if !pk.insert(p.index) { return Err("duplicate parameter"); }
+					if p.names[0].is_some() { return Err("parameter with a first-namespace name"); }
 				match &p.names[1] { Some(d) if unq(d) && tok_ok(d) => {}, Some(_) => return Err("parameter token"), None => return Err("parameter without target") }
 				if !doc_ok(&p.doc) { return Err("comment with TAB/VT/FF/CR"); }
 			}
@@ -191,14 +192,47 @@ fn enigma_ok(m: &MMappings) -> Result<(), &'static str> {
 	}
 	Ok(())
 }
-/// what a round trip may change: constructors lose their target name, parameters their source name
+/// what a round trip may change — only this: a method target `<init>` is not written (constructors are unnamed).
+/// `<clinit>` targets, targets equal to the source name, parameters, comments: everything else must come back.
 fn norm(m: &MMappings) -> MMappings {
 	let mut m = m.clone();
 	for c in &mut m.classes { for me in &mut c.methods {
 		if me.names[1] == Some(s("<init>")) { me.names[1] = None; }
-		for p in &mut me.params { p.names[0] = None; }
 	} }
 	m
+}
+/// the loss the hypothesis "parameters have no first-namespace name" keeps out of the theorem
+fn drop_param_src(m: &MMappings) -> MMappings {
+	let mut m = m.clone();
+	for c in &mut m.classes { for me in &mut c.methods { for p in &mut me.params { p.names[0] = None; } } }
+	m
+}
+
+// special-looking method names: every source kind with every target kind
+const SPECIAL_SRC: [&str; 4] = ["<init>", "<clinit>", "run", "COMMENT"];
+/// `=` stands for "the source name itself" (identity mapping)
+const SPECIAL_DST: [Option<&str>; 6] = [None, Some("<init>"), Some("<clinit>"), Some("="), Some("other"), Some("ACC:t")];
+const SPECIAL_DESC: [&str; 6] = ["()V", "(I)V", "(J)V", "()I", "(Z)V", "(B)V"];
+fn special_meth(si: usize, di: usize) -> MMeth {
+	let src = SPECIAL_SRC[si];
+	let dst = SPECIAL_DST[di].map(|d| s(if d == "=" { src } else { d }));
+	MMeth { desc: s(SPECIAL_DESC[di]), names: vec![Some(s(src)), dst], doc: None, params: vec![] }
+}
+fn add_meth_if_new(c: &mut MClass, me: MMeth) {
+	if !c.methods.iter().any(|x| x.names[0] == me.names[0] && x.desc == me.desc) { c.methods.push(me); }
+}
+/// the whole table in one class (plus identity-mapped field and class, keyword-like names)
+fn special_set(k: usize) -> MMappings {
+	let mut c = MClass { names: vec![Some(s("p/Special")), Some(s(if k % 2 == 0 { "q/Special" } else { "p/Special" }))], doc: None, fields: vec![], methods: vec![] };
+	for si in 0..SPECIAL_SRC.len() { for di in 0..SPECIAL_DST.len() { c.methods.push(special_meth(si, di)); } }
+	c.fields.push(MField { desc: s("I"), names: vec![Some(s("same")), Some(s("same"))], doc: None });
+	c.fields.push(MField { desc: s("J"), names: vec![Some(s("COMMENT")), Some(s("CLASS"))], doc: None });
+	c.fields.push(MField { desc: s("Z"), names: vec![Some(s("acc")), Some(s("ACC:f"))], doc: None });
+	if k >= 2 { for me in &mut c.methods { if me.desc == s("(I)V") { me.params.push(MParam { index: 1, names: vec![None, Some(s("init"))], doc: Some(s("on a special method")) }); } } }
+	let inner = MClass { names: vec![Some(s("p/Special$In")), Some({ let mut d = file_name(&c); d.extend(s("$In")); d })], doc: None, fields: vec![], methods: vec![special_meth(1, 2), special_meth(0, 1), special_meth(1, 0)] };
+	let mut v = vec![c, inner];
+	if k % 2 == 1 { v.reverse(); }
+	mm(v)
 }
 
 // ---------- generators ----------
@@ -218,14 +252,22 @@ fn gen_valid(rng: &mut Rng) -> MMappings {
 		for me in &mut c.methods {
 			if rng.chance(1, 4) { me.doc = my_doc(rng); }
 			for p in &mut me.params {
+				p.names[0] = None; // hypothesis: parameters have no first-namespace name
 				if p.names[1].is_none() { p.names[1] = Some(s(*rng.pick(&["p_1", "arg", "value", "x"][..]))); }
 				if rng.chance(1, 3) { p.doc = my_doc(rng); }
 				if rng.chance(1, 10) { p.index = *rng.pick(&[255u64, 65535, 4294967296, u64::MAX][..]); }
 			}
 			let mut seen = BTreeSet::new();
 			me.params.retain(|p| seen.insert(p.index));
+			// identity-mapped methods
+			if rng.chance(1, 8) { me.names[1] = me.names[0].clone(); }
 		}
+		for f in &mut c.fields { if rng.chance(1, 8) { f.names[1] = f.names[0].clone(); } }
+		// special-looking methods: <init> / <clinit> / ordinary / keyword-like source with absent, <init>, <clinit>, identical, other, ACC:-like target
+		if rng.chance(1, 2) { for _ in 0..rng.range(1, 4) { let me = special_meth(rng.below(SPECIAL_SRC.len()), rng.below(SPECIAL_DST.len())); add_meth_if_new(c, me); } }
 	}
+	// identity-mapped classes (nested ones are re-targeted by follow_nesting)
+	for c in &mut m.classes { if rng.chance(1, 10) { c.names[1] = c.names[0].clone(); } }
 	// root targets: sometimes with `$`
 	for c in &mut m.classes { if rng.chance(1, 8) { if let Some(d) = &mut c.names[1] { d.extend(s("$X")); } } }
 	follow_nesting(rng, &mut m);
@@ -259,8 +301,8 @@ fn dedup_files(m: &mut MMappings) {
 	if m.classes.len() != m0.classes.len() { dedup_files(m); }
 }
 
-const VIOLATIONS: [&str; 12] = ["space-in-token", "hash-in-token", "acc-target", "acc-desc", "dup-file", "nesting-not-followed",
-	"param-no-target", "comment-ctl", "invalid-name", "empty-desc", "surrogate", "trailing-nbsp"];
+const VIOLATIONS: [&str; 13] = ["space-in-token", "hash-in-token", "acc-target", "acc-desc", "dup-file", "nesting-not-followed",
+	"param-no-target", "param-src-name", "comment-ctl", "invalid-name", "empty-desc", "surrogate", "trailing-nbsp"];
 /// a mapping set that breaks exactly the named hypothesis (when it has a place to break it)
 fn gen_violating(rng: &mut Rng, kind: &str) -> MMappings {
 	let mut m = gen_valid(rng);
@@ -284,6 +326,7 @@ fn gen_violating(rng: &mut Rng, kind: &str) -> MMappings {
 			if !m.classes.iter().any(|c| key(c) == ik) { m.classes.push(MClass { names: vec![Some(ik), Some(s("elsewhere/Inner"))], doc: None, fields: vec![], methods: vec![] }); }
 		}
 		"param-no-target" => { m.classes[ci].methods.push(MMeth { desc: s("(I)V"), names: vec![Some(s("noTarget")), None], doc: None, params: vec![MParam { index: 0, names: vec![Some(s("p")), None], doc: None }] }); }
+		"param-src-name" => { m.classes[ci].methods.push(MMeth { desc: s("(IJ)V"), names: vec![Some(s("withSrc")), Some(s("t"))], doc: None, params: vec![MParam { index: 1, names: vec![Some(s("srcName")), Some(s("x"))], doc: None }] }); }
 		"comment-ctl" => { m.classes[ci].doc = Some(s(*rng.pick(&["tab\there", "cr\rmid", "end\r", "vt\u{b}x", "ff\u{c}x", "a\r\nb"][..]))); }
 		"invalid-name" => match rng.below(3) {
 			0 => { m.classes[ci].fields.push(MField { desc: s("I"), names: vec![Some(s("a/b")), None], doc: None }); }
@@ -423,6 +466,13 @@ fn class_lines(text: &S) -> Vec<(usize, S)> {
 	out
 }
 
+/// the text without the lines that start with `#` (comment lines; a COMMENT line starts with a tab)
+fn strip_hash_lines(t: &S) -> S {
+	let mut out = vec![];
+	for l in t.split_inclusive(|&c| c == 10) { if l.first() != Some(&('#' as u32)) { out.extend_from_slice(l); } }
+	out
+}
+
 /// Everything the property states, on the implementation alone, for a mapping set inside the hypotheses.
 fn oracle(r: &mut Report, rng: &mut Rng, m: &MMappings, sc: &mut Scratch, with_dir: bool) {
 	let want = mm(norm(m).classes);
@@ -468,7 +518,7 @@ fn oracle(r: &mut Report, rng: &mut Rng, m: &MMappings, sc: &mut Scratch, with_d
 				let expect: BTreeSet<S> = m.classes.iter().filter(|c| file_name(root_of(m, c)) == *fname).map(key).collect();
 				let got: BTreeSet<S> = impl_read(&t).ok().flatten().unwrap_or_default().iter().map(key).collect();
 				if expect != got { r.violation(format!("file {:?} holds the classes {:?}, expected {:?}", show(fname), got.iter().map(|k| show(k)).collect::<Vec<_>>(), expect.iter().map(|k| show(k)).collect::<Vec<_>>()), replay("wrong classes in a file", m, &format!("file text:\n{}\n", text_of(&t)))); }
-				concat.extend(s("#\n# ")); concat.extend(fname.clone()); concat.push(10); concat.extend(t);
+				concat.extend(t);
 			}
 			other => r.violation(format!("write_one fails for file name {:?}: {:?}", show(fname), other.err()), replay("write_one failed for a parent-free class", m, "")),
 		}
@@ -477,7 +527,8 @@ fn oracle(r: &mut Report, rng: &mut Rng, m: &MMappings, sc: &mut Scratch, with_d
 		let n = per_file.get(&key(c)).copied().unwrap_or(0);
 		if n != 1 { r.violation(format!("class {:?} is in {n} files, expected exactly one", show(&key(c))), replay("a class is not in exactly one file", m, "")); }
 	}
-	if concat != text { r.violation("write_all is not the concatenation of the sorted files with their headers".into(), replay("write_all differs from the sorted write_one outputs", m, &format!("write_all:\n{}\nconcatenation:\n{}\n", text_of(&text), text_of(&concat)))); }
+	// the `#` lines write_all puts in front of every file's part are comments, no part of the property: compared without them
+	if strip_hash_lines(&concat) != strip_hash_lines(&text) { r.violation("write_all is not the concatenation of the files in sorted order (comment lines aside)".into(), replay("write_all differs from the sorted write_one outputs", m, &format!("write_all:\n{}\nconcatenation:\n{}\n", text_of(&text), text_of(&concat)))); }
 	// determinism: another insertion order writes the same bytes
 	for _ in 0..2 {
 		let m2 = shuffled(rng, m);
@@ -560,11 +611,12 @@ pub fn run(ctx: &Ctx) -> anyhow::Result<Report> {
 	let n_valid = if ctx.thorough { 3000 } else { 320 };
 	let n_viol = if ctx.thorough { 120 } else { 16 };
 	let n_mut = if ctx.thorough { 2500 } else { 300 };
-	r.rule = format!("valid stream: {n_valid} two-namespace mapping sets from mapmodel::gen_mappings (0..7 classes, `$`-nested source names, packages, unicode, absent targets, <init> members) \
-post-processed so that they satisfy enigma_ok (nested targets = target-or-source of the parent + `$` + simple name or absent, parameters get targets, duplicate file names removed), with orphan inner classes \
+	r.rule = format!("valid stream: {n_valid} two-namespace mapping sets from mapmodel::gen_mappings (0..7 classes, `$`-nested source names, packages, unicode, absent targets, <init> members) plus, in half of the classes, 1-3 methods from the table (<init>, <clinit>, run, COMMENT) x target (absent, <init>, <clinit>, identical to the source, other, ACC:t), identity-mapped methods, fields (1/8) and classes (1/10) \
+post-processed so that they satisfy enigma_ok (nested targets = target-or-source of the parent + `$` + simple name or absent, parameters get targets and lose their first-namespace name, duplicate file names removed), with orphan inner classes \
 (a parent dropped in 1/3 of the sets), root targets containing `$`, comments from 16 shapes (blank lines, leading/trailing spaces, `#`, empty, NBSP); every set goes through the full oracle on the implementation \
-(stream and directory round trip against an independent normaliser, one CLASS line per class with depth = source nesting depth, every class in exactly one write_one file, write_all = concatenation, 2+1 shuffled insertion orders) \
-and yields one CSet case (write_all, read_into of the written text, write_one for 1-3 names, every 4th set enigma_dir::write and ::read); {n_viol} sets for each of {} hypothesis-violating kinds (correspondence only); {} hand-written reader inputs and {n_mut} mutations of written texts (malformed stream); \
+(stream and directory round trip against an independent normaliser, one CLASS line per class with depth = source nesting depth, every class in exactly one write_one file, write_all = concatenation of the sorted files apart from `#` lines, 2+1 shuffled insertion orders; the normaliser drops nothing but an `<init>` target) \
+and yields one CSet case (write_all, read_into of the written text, write_one for 1-3 names, every 4th set enigma_dir::write and ::read); the complete special-method table as 4 fixed sets (stream `special`, full oracle); {n_viol} sets for each of {} hypothesis-violating kinds (correspondence only; for `param-src-name` the documented loss is observed and counted); \
+a table-driven reader stream `unicode-ws`: every code point char::is_whitespace accepts (asked for all 0x110000) and 26 that it does not, at the start, end and inside of CLASS/FIELD/ARG/COMMENT lines (14 shapes each); {} hand-written reader inputs and {n_mut} mutations of written texts (malformed stream); \
 directory reads of generated file trees (non-mapping files, nested directories, colliding classes). Non-trivial = at least one class; distinct by canonical Gallina text.", VIOLATIONS.len(), HAND.len());
 
 	// 1. inside the hypotheses
@@ -587,6 +639,13 @@ directory reads of generated file trees (non-mapping files, nested directories, 
 		cases(&mut r, &mut rng, "valid", &m, &mut sc, with_dir);
 		if i % 2 == 0 { if let Ok(Some(t)) = impl_write_all(&m) { texts.push(t); } }
 	}
+	// 1a. the table of special-looking method names, complete, in every run (two insertion orders, with and without parameters)
+	for k in 0..4 {
+		let m = special_set(k);
+		r.eval(&g_classes(&m.canon().classes), true);
+		match enigma_ok(&m) { Ok(()) => { r.count("special_inside_hypotheses"); oracle(&mut r, &mut rng, &m, &mut sc, true); } Err(why) => { r.notes.push(format!("special-method table is outside the hypotheses ({why})")); r.count("special_outside"); } }
+		cases(&mut r, &mut rng, "special", &m, &mut sc, true);
+	}
 	// 2. one stream per violated hypothesis
 	for kind in VIOLATIONS {
 		for i in 0..n_viol {
@@ -595,6 +654,15 @@ directory reads of generated file trees (non-mapping files, nested directories, 
 			match enigma_ok(&m) { Ok(()) => r.count(&format!("{st}:still_inside_hypotheses")), Err(_) => r.count(&format!("{st}:outside")) }
 			r.eval(&g_classes(&m.canon().classes), !m.classes.is_empty());
 			if enigma_ok(&m).is_ok() { oracle(&mut r, &mut rng, &m, &mut sc, false); }
+			if kind == "param-src-name" {
+				// the loss this hypothesis keeps out of the theorem, observed: the source name does not come back, everything else does
+				let want = mm(norm(&drop_param_src(&m)).classes);
+				match impl_write_all(&m).ok().flatten().and_then(|t| impl_read(&t).ok().flatten()) {
+					Some(back) if mm(back.clone()).equiv(&want) && !mm(back).equiv(&mm(norm(&m).classes)) => r.count("viol-param-src-name:source_name_lost_nothing_else"),
+					Some(_) => r.count("viol-param-src-name:other_outcome"),
+					None => r.count("viol-param-src-name:not_written_or_not_read"),
+				}
+			}
 			cases(&mut r, &mut rng, &st, &m, &mut sc, i % 3 == 0);
 		}
 	}
@@ -635,6 +703,31 @@ directory reads of generated file trees (non-mapping files, nested directories, 
 		match impl_read(&t) {
 			Ok(b) => { r.count(if b.is_some() { "hand_ok" } else { "hand_err" }); r.case("hand", compact(&format!("CRead {} {}", gstr(&t), gres(b.map(|b| g_classes(&b)))))); }
 			Err(p) => r.violation(format!("read_into panicked: {p}"), format!("property C12\nread_into panicked: {p}\ntext:\n{h}\n")),
+		}
+	}
+	// 3a. Unicode white space at the start / end / inside of lines: the reader uses str::trim (all of White_Space) on
+	// non-COMMENT lines but splits at the six Java white-space characters only.  The characters come from the real
+	// char::is_whitespace (every code point is asked), so the model's hand-written table is compared with it entry by entry;
+	// plus neighbours and look-alikes that are NOT white space.
+	let real_ws: Vec<u32> = (0..=0x10FFFFu32).filter(|&c| char::from_u32(c).is_some_and(|ch| ch.is_whitespace())).collect();
+	r.notes.push(format!("char::is_whitespace holds for {} code points: {}", real_ws.len(), real_ws.iter().map(|c| format!("U+{c:04X}")).collect::<Vec<_>>().join(" ")));
+	const NOT_WS: [u32; 20] = [0x1C, 0x1D, 0x1E, 0x1F, 0x7F, 0x84, 0x86, 0x9F, 0xA1, 0xAD, 0x167F, 0x1681, 0x180E, 0x1FFF, 0x200B, 0x200C, 0x2027, 0x202A, 0x2060, 0xFEFF];
+	let extra: [u32; 6] = [0x202E, 0x205E, 0x2060, 0x2FFF, 0x3001, 0x10FFFF];
+	for &w in real_ws.iter().chain(NOT_WS.iter()).chain(extra.iter()) {
+		if w == 10 { continue; } // LF ends the line
+		let shapes: [(&str, &str); 14] = [
+			("CLASS A B", "\n"), ("", "CLASS A B\n"), ("CLASS A B\n\tFIELD a b I", "\n"), ("CLASS A B\n\t", "FIELD a b I\n"), ("CLASS A", "B\n"), ("CLASS A B ", "\n"),
+			("CLASS A B", "#x\n"), ("CLASS A\n\tCOMMENT x", "\n"), ("CLASS A\n\tMETHOD m ()V\n\t\tARG 1 p", "\n\t\t\tCOMMENT c\n"), ("CLASS A\n", "\n\tFIELD a I\n"), ("CLASS A\n\t", "\n"),
+			("CLASS A B", "{w}\n"), ("", "{w}CLASS A B\n"), ("CLASS A\n\tCOMMENT", "x\n"),
+		];
+		for (a, b) in shapes {
+			let mut t = s(a); t.push(w);
+			for part in b.split("{w}").enumerate() { if part.0 > 0 { t.push(w); } t.extend(s(part.1)); }
+			r.eval(&gstr(&t), true);
+			match impl_read(&t) {
+				Ok(b) => { r.count(if b.is_some() { "ws_ok" } else { "ws_err" }); r.case("unicode-ws", compact(&format!("CRead {} {}", gstr(&t), gres(b.map(|b| g_classes(&b)))))); }
+				Err(p) => r.violation(format!("read_into panicked: {p}"), format!("property C12\nread_into panicked: {p}\ntext (code points): {}\n", gstr(&t))),
+			}
 		}
 	}
 	for i in 0..n_mut {
